@@ -103,7 +103,16 @@ class C07(Property):
     id = "C07"
     title = "flatten() is compositional and names every leaf by its position"
     proof_module = "Proofs.C07"
-    theorems = []
+    theorems = [
+        "Flatland.Flat.Proofs.flatten_compositional",
+        "Flatland.Flat.Proofs.flatten_root_compositional",
+        "Flatland.Flat.Proofs.flatten_level_order",
+        "Flatland.Flat.Proofs.joined_opaque",
+        "Flatland.Flat.Proofs.joined_opaque_in_queue",
+        "Flatland.Flat.Proofs.childItems_positional",
+        "Flatland.Flat.Proofs.keys_are_paths",
+        "Flatland.Flat.Proofs.below_joined",
+    ]
     trusted_base = [
         "scalar text (.u) and compound text are inputs of the flat model (env tables computed from the real classes in isolation; subjects of C04/C18)",
         "element state is extracted from the real element after set() and list mutations; flatten is recomputed by the model",
